@@ -239,3 +239,126 @@ pub unsafe extern "C" fn pthread_create(
     let real: PthreadCreate = std::mem::transmute(real);
     real(thread, attr, start, arg)
 }
+
+// ---------------------------------------------------------------------------------------------
+// Allocation points: scheduling points in code that has no hook at all.
+//
+// Every heap allocation made by a simulated thread while it is inside a library call is counted;
+// every `every`-th one calls the thread's allocation hook, which the baton scheduler uses as a
+// scheduling point. Allocation sequences of deterministic code are deterministic, so the schedule
+// remains a function of the seed. Windows between two `verif_point!` sites, and code added by a
+// change without any hook, become interruptible this way.
+
+pub struct CountingAlloc;
+
+struct AllocCtx {
+    every: u64,
+    count: Cell<u64>,
+    busy: Cell<bool>,
+    active: Cell<bool>,
+    hook: Box<dyn Fn()>,
+}
+
+thread_local! {
+    static ALLOC_CTX: Cell<*const AllocCtx> = const { Cell::new(std::ptr::null()) };
+}
+
+pub static ALLOC_POINTS: AtomicU64 = AtomicU64::new(0);
+
+/// Install the allocation hook of the calling thread (every `every`-th allocation; 0 = never).
+pub fn set_alloc_hook(every: u64, hook: Option<Box<dyn Fn()>>) {
+    let old = ALLOC_CTX.with(|c| c.replace(std::ptr::null()));
+    if !old.is_null() {
+        drop(unsafe { Box::from_raw(old as *mut AllocCtx) });
+    }
+    if let (Some(hook), true) = (hook, every > 0) {
+        let ctx = Box::new(AllocCtx {
+            every,
+            count: Cell::new(0),
+            busy: Cell::new(false),
+            active: Cell::new(false),
+            hook,
+        });
+        ALLOC_CTX.with(|c| c.set(Box::into_raw(ctx)));
+    }
+}
+
+/// Allocation points are only taken while the thread is inside a call of the code under test.
+pub fn set_alloc_points_active(active: bool) {
+    let p = ALLOC_CTX.with(|c| c.get());
+    if !p.is_null() {
+        unsafe { (*p).active.set(active) };
+    }
+}
+
+/// While a value of this type lives, allocations of the calling thread are not scheduling points
+/// (the scheduler and the simulator's own bookkeeping allocate too).
+pub struct AllocPointsSuspended {
+    ctx: *const AllocCtx,
+    was_busy: bool,
+}
+
+impl AllocPointsSuspended {
+    pub fn new() -> Self {
+        let ctx = ALLOC_CTX.try_with(|c| c.get()).unwrap_or(std::ptr::null());
+        let was_busy = if ctx.is_null() {
+            false
+        } else {
+            unsafe { (*ctx).busy.replace(true) }
+        };
+        AllocPointsSuspended { ctx, was_busy }
+    }
+}
+
+impl Drop for AllocPointsSuspended {
+    fn drop(&mut self) {
+        if !self.ctx.is_null() {
+            // the context may have been replaced meanwhile only by this same thread at teardown
+            let now = ALLOC_CTX.try_with(|c| c.get()).unwrap_or(std::ptr::null());
+            if now == self.ctx {
+                unsafe { (*self.ctx).busy.set(self.was_busy) };
+            }
+        }
+    }
+}
+
+#[inline]
+fn allocation_point() {
+    let p = match ALLOC_CTX.try_with(|c| c.get()) {
+        Ok(p) => p,
+        Err(_) => return,
+    };
+    if p.is_null() {
+        return;
+    }
+    let ctx = unsafe { &*p };
+    if !ctx.active.get() || ctx.busy.get() || std::thread::panicking() {
+        return;
+    }
+    let n = ctx.count.get() + 1;
+    ctx.count.set(n);
+    if n % ctx.every == 0 {
+        ctx.busy.set(true);
+        ALLOC_POINTS.fetch_add(1, Ordering::Relaxed);
+        (ctx.hook)();
+        ctx.busy.set(false);
+    }
+}
+
+unsafe impl std::alloc::GlobalAlloc for CountingAlloc {
+    unsafe fn alloc(&self, layout: std::alloc::Layout) -> *mut u8 {
+        allocation_point();
+        std::alloc::System.alloc(layout)
+    }
+    unsafe fn dealloc(&self, ptr: *mut u8, layout: std::alloc::Layout) {
+        std::alloc::System.dealloc(ptr, layout)
+    }
+    unsafe fn alloc_zeroed(&self, layout: std::alloc::Layout) -> *mut u8 {
+        allocation_point();
+        std::alloc::System.alloc_zeroed(layout)
+    }
+    unsafe fn realloc(&self, ptr: *mut u8, layout: std::alloc::Layout, new_size: usize) -> *mut u8 {
+        allocation_point();
+        std::alloc::System.realloc(ptr, layout, new_size)
+    }
+}
